@@ -53,6 +53,7 @@ class Executor(StmtMixin, LoopMixin, DriverMixin):
         self.inlined = set()
         self.bounded_notes = set()
         self.entry_locals = {}
+        self._pres_paths = {}
 
     # =====================================================================================
     # solver helpers
@@ -141,7 +142,8 @@ class Executor(StmtMixin, LoopMixin, DriverMixin):
 
     def assign_var(self, st, name, val, src_node=None):
         """name = val.  Containers are boxed; `x = y` / `x = obj.f` alias."""
-        st.log_write(("var", name))
+        if self.inline_depth == 0:
+            st.log_write(("var", name))     # locals of an inlined callee live in its own frame
         decl = self.c.locals.get(name) if self.inline_depth == 0 else None
         if isinstance(val, (Closure,)):
             st.vars[name] = val
